@@ -23,6 +23,7 @@ func (m *Mutex) Lock() {
 	}
 	m.mu.Lock()
 	m.held = true
+	vsched.Acquire()
 }
 
 func (m *Mutex) TryLock() bool {
@@ -31,12 +32,14 @@ func (m *Mutex) TryLock() bool {
 	}
 	if m.mu.TryLock() {
 		m.held = true
+		vsched.Acquire()
 		return true
 	}
 	return false
 }
 
 func (m *Mutex) Unlock() {
+	vsched.Release()
 	m.held = false
 	m.mu.Unlock()
 }
@@ -56,9 +59,11 @@ func (m *RWMutex) Lock() {
 	}
 	m.mu.Lock()
 	m.writer = true
+	vsched.Acquire()
 }
 
 func (m *RWMutex) Unlock() {
+	vsched.Release()
 	m.writer = false
 	m.mu.Unlock()
 }
@@ -71,9 +76,11 @@ func (m *RWMutex) RLock() {
 	m.st.Lock()
 	m.readers++
 	m.st.Unlock()
+	vsched.Acquire()
 }
 
 func (m *RWMutex) RUnlock() {
+	vsched.Release()
 	m.st.Lock()
 	m.readers--
 	m.st.Unlock()
@@ -86,6 +93,7 @@ func (m *RWMutex) TryLock() bool {
 	}
 	if m.mu.TryLock() {
 		m.writer = true
+		vsched.Acquire()
 		return true
 	}
 	return false
@@ -99,6 +107,7 @@ func (m *RWMutex) TryRLock() bool {
 		m.st.Lock()
 		m.readers++
 		m.st.Unlock()
+		vsched.Acquire()
 		return true
 	}
 	return false
@@ -151,7 +160,8 @@ func (o *Once) Do(f func()) {
 		vsched.Point("Once.Do", o)
 	}
 	o.m.Lock()
-	defer o.m.Unlock()
+	vsched.Acquire() // f runs inside a real critical section: no statement points in it
+	defer func() { vsched.Release(); o.m.Unlock() }()
 	if !o.done {
 		defer func() { o.done = true }()
 		f()
